@@ -488,10 +488,34 @@ def stealth_scenarios(tier: str) -> list[StealthScenario]:
     return out
 
 
+def causekind_scenarios() -> list[Scenario]:
+    """'cause kind' as a criterion, in vivo: handlers of every kind (among them a resume handler that is filtered out when the process
+    first sees the object and matches later) over histories with restarts; judged by C05's invocation rules, reported for C15."""
+    from kv.checks import c05 as _c05
+
+    class CauseKindScenario(_c05.C05Scenario):
+        name = 'c15-causekind'
+        prop = 'C15'
+
+        def check(self, env: Env) -> list[Violation]:
+            return [self.viol(env, 'wrong-selection', f"cause kind: {v.message}", cls='cause-kind', what=v.kind) for v in super().check(env)
+                    if v.kind in ('resume-not-first-sight', 'kind-mismatch', 'change-on-deleting', 'resume-on-deleting', 'delete-not-held', 'no-progress')]
+    globals()['CauseKindScenario'] = CauseKindScenario
+    out: list[Scenario] = []
+    for bare in (False,):
+        for h in _c05.histories(3, bare):
+            if ('restart',) in h and ('label', 'a', 'l', 'v') in h:
+                for fro in (True, False):
+                    sc = _c05.build(h, bare, 6.0, False, filtered_resume_only=fro, delays=False, early_user=False, time_dev=False)
+                    out.append(CauseKindScenario(**sc.params))
+    return out
+
+
 def run(tier: str, seed: int) -> CheckResult:
     stats = Stats()
     viols = table(tier, stats) + duplicates(stats) + multikey(stats)
-    groups = [('stealth', stealth_scenarios(tier), 1 if tier == 'quick' else 2, 40.0 if tier == 'quick' else 400.0)]
+    groups = [('stealth', stealth_scenarios(tier), 1 if tier == 'quick' else 2, 40.0 if tier == 'quick' else 400.0),
+              ('cause-kind', causekind_scenarios(), 0, 40.0)]
     st2, v2, info, nscen = run_groups(groups, seed=seed)
     table_evals = stats.executions
     stats.merge(st2)
@@ -512,6 +536,9 @@ def run(tier: str, seed: int) -> CheckResult:
 
 
 def scenario_from(name: str, params: dict[str, Any]) -> Scenario:
+    if name == 'c15-causekind':
+        causekind_scenarios()
+        return globals()['CauseKindScenario'](**params)
     return StealthScenario(**params)
 
 
